@@ -8,6 +8,7 @@ class Unsupported(Exception): pass
 class Ctx:
     def __init__(self, decisions=()):
         self.decisions = list(decisions); self.pos = 0; self.pc = []; self.solver = z3.Solver(); self.k = 0
+        self.solver.set("timeout", 10000)     # feasibility queries only: a timeout is 'unknown', which KEEPS the path (sound), it never decides an obligation
         self.obligations = []     # (name, status, model)
     def fresh(self, name, sort=None):
         self.k += 1; return z3.Const(f"{name}!{self.k}", sort if sort is not None else z3.IntSort())
